@@ -11,8 +11,19 @@
 // `defer func() { verifPoint(...); <fs call> }()`, and wraps the destination of WriteBlock's io.Copy so
 // that every individual write of the copy loop is preceded by a yield point.  Nothing else is
 // changed, except that every instrumented method starts with `defer verifEnter("<Method>")()`.
-// verifPoint/verifWriter/verifEnter are defined by the harness (zz_verif_ks_hook_test.go).
-// Exit status 2 = an expected method or yield point is missing (broken correspondence).
+// Calls of methods of an open file (f.Stat, f.Chmod, f.Sync, f.Truncate, ...) and of syscall/unix
+// functions count as filesystem calls too, so that a variant of the code that works on a descriptor
+// instead of a path still yields at the same place (with another label).
+// Two more rewrites serve the delayed-write level of C04 (harness/C04/zz_verif_c04d_test.go):
+//   - `verifAux("<Method>:v.lock#<n>")` before every statement that calls v.lock (waiting for the
+//     Serialize mutex); this hook is separate from verifPoint, so the step lists of C02 and C04 (I),
+//     which do not model the volume mutex, are unchanged;
+//   - time.Now() -> verifNow(), time.Since(x) -> verifNow().Sub(x) in the whole file: the clock read
+//     by unix_volume.go can be advanced by the harness while a request is parked (offset 0 otherwise).
+// verifPoint/verifAux/verifNow/verifWriter/verifEnter are defined by the harness (zz_verif_ks_hook_test.go).
+// Exit status 2 = the file could not be instrumented at all; exit status 3 = the instrumented copy was
+// written, but an expected method or yield point is missing (broken correspondence: the caller still runs
+// the harness on the copy to look for a failing input, and reports the check as failed either way).
 package main
 
 import (
@@ -41,7 +52,15 @@ var required = map[string][]string{
 	"Untrash": {"ioutil.ReadDir", "v.os.Stat", "v.os.Rename"},
 }
 
-var notFS = map[string]bool{"os.IsNotExist": true, "os.IsExist": true, "os.Getpid": true, "ioutil.NopCloser": true}
+var notFS = map[string]bool{"os.IsNotExist": true, "os.IsExist": true, "os.Getpid": true, "ioutil.NopCloser": true,
+	"os.IsPermission": true, "syscall.NsecToTimeval": true, "syscall.NsecToTimespec": true, "syscall.TimevalToNsec": true, "syscall.TimespecToNsec": true,
+	"unix.NsecToTimeval": true, "unix.NsecToTimespec": true, "os.Getenv": true, "os.FileMode": true, "syscall.Errno": true}
+
+// methods of *os.File (on any local variable) that reach the file system
+var fileMethods = map[string]bool{"Close": true, "Stat": true, "Chmod": true, "Chown": true, "Sync": true, "Truncate": true,
+	"Seek": true, "Readdir": true, "Readdirnames": true, "ReadDir": true, "Write": true, "WriteAt": true, "WriteString": true,
+	"Read": true, "ReadAt": true}
+var notFiles = map[string]bool{"pipew": true, "piper": true, "v": true, "w": true, "rdr": true, "resp": true, "buf": true, "strings": true, "bytes": true, "io": true}
 
 func exprString(e ast.Expr) string {
 	switch x := e.(type) {
@@ -65,10 +84,10 @@ func fsCallee(call *ast.CallExpr) string {
 	}
 	switch x := sel.X.(type) {
 	case *ast.Ident:
-		if x.Name == "os" || x.Name == "ioutil" || x.Name == "syscall" {
+		if x.Name == "os" || x.Name == "ioutil" || x.Name == "syscall" || x.Name == "unix" {
 			return s
 		}
-		if sel.Sel.Name == "Close" && x.Name != "pipew" && x.Name != "piper" {
+		if fileMethods[sel.Sel.Name] && !notFiles[x.Name] {
 			return s
 		}
 		if x.Name == "v" && (sel.Sel.Name == "lockfile" || sel.Sel.Name == "unlockfile") {
@@ -112,7 +131,69 @@ func firstFS(nodes ...ast.Node) string {
 type inst struct {
 	method string
 	n      int
+	naux   int
 	points []string
+	aux    []string
+}
+
+// callsVLock: does the statement itself (not a nested block or function literal) call v.lock?
+func callsVLock(s ast.Stmt) bool {
+	var nodes []ast.Node
+	switch x := s.(type) {
+	case *ast.ExprStmt, *ast.AssignStmt, *ast.ReturnStmt, *ast.DeclStmt:
+		nodes = []ast.Node{s}
+	case *ast.IfStmt:
+		nodes = []ast.Node{nilIfNilS(x.Init), nilIfNil(x.Cond)}
+	default:
+		return false
+	}
+	found := false
+	for _, n := range nodes {
+		if n == nil {
+			continue
+		}
+		ast.Inspect(n, func(m ast.Node) bool {
+			switch y := m.(type) {
+			case *ast.FuncLit, *ast.BlockStmt:
+				return false
+			case *ast.CallExpr:
+				if exprString(y.Fun) == "v.lock" {
+					found = true
+				}
+			}
+			return !found
+		})
+	}
+	return found
+}
+
+func auxCall(label string) *ast.ExprStmt {
+	return &ast.ExprStmt{X: &ast.CallExpr{Fun: ast.NewIdent("verifAux"), Args: []ast.Expr{&ast.BasicLit{Kind: token.STRING, Value: strconv.Quote(label)}}}}
+}
+
+// rewriteClock: time.Now() -> verifNow(), time.Since(x) -> verifNow().Sub(x), everywhere in the file.
+func rewriteClock(f *ast.File) int {
+	n := 0
+	ast.Inspect(f, func(m ast.Node) bool {
+		call, ok := m.(*ast.CallExpr)
+		if !ok {
+			return true
+		}
+		switch exprString(call.Fun) {
+		case "time.Now":
+			if len(call.Args) == 0 {
+				call.Fun = ast.NewIdent("verifNow")
+				n++
+			}
+		case "time.Since":
+			if len(call.Args) == 1 {
+				call.Fun = &ast.SelectorExpr{X: &ast.CallExpr{Fun: ast.NewIdent("verifNow")}, Sel: ast.NewIdent("Sub")}
+				n++
+			}
+		}
+		return true
+	})
+	return n
 }
 
 func (in *inst) label(callee string) string {
@@ -187,6 +268,11 @@ func (in *inst) list(stmts []ast.Stmt) []ast.Stmt {
 			}
 			out = append(out, s)
 			continue
+		}
+		if callsVLock(s) {
+			out = append(out, auxCall(fmt.Sprintf("%s:v.lock#%d", in.method, in.naux)))
+			in.naux++
+			in.aux = append(in.aux, "v.lock")
 		}
 		if callee := stmtCallee(s); callee != "" {
 			out = append(out, pointCall(in.label(callee)))
@@ -277,7 +363,9 @@ func main() {
 			Args: []ast.Expr{&ast.BasicLit{Kind: token.STRING, Value: strconv.Quote(fd.Name.Name)}}}}}
 		fd.Body.List = append([]ast.Stmt{enter}, fd.Body.List...)
 	}
+	nclock := rewriteClock(f)
 	bad := false
+	var missing []string
 	for m, req := range required {
 		have := map[string]bool{}
 		for _, p := range points[m] {
@@ -285,12 +373,14 @@ func main() {
 		}
 		if _, ok := points[m]; !ok {
 			fmt.Fprintf(os.Stderr, "instrument: method (*UnixVolume).%s not found\n", m)
+			missing = append(missing, m)
 			bad = true
 			continue
 		}
 		for _, r := range req {
 			if !have[r] {
 				fmt.Fprintf(os.Stderr, "instrument: (*UnixVolume).%s: expected filesystem call %s not found\n", m, r)
+				missing = append(missing, m+":"+r)
 				bad = true
 			}
 		}
@@ -308,10 +398,10 @@ func main() {
 		os.Exit(2)
 	}
 	if *ptsPath != "" {
-		j, _ := json.MarshalIndent(points, "", " ")
+		j, _ := json.MarshalIndent(map[string]interface{}{"points": points, "missing": missing, "clock_reads_rewritten": nclock}, "", " ")
 		os.WriteFile(*ptsPath, j, 0666)
 	}
 	if bad {
-		os.Exit(2)
+		os.Exit(3)
 	}
 }
